@@ -138,6 +138,8 @@ def lift(v, kind="real"):
         return real_of_float(v)
     if isinstance(v, (Inf, NaN)):
         raise Unsupported("infinite/NaN element inside a symbolic vector")
+    if z3.is_fp(v):
+        return v
     if kind == "real" and z3.is_int(v):
         return z3.ToReal(v)
     return v
